@@ -316,6 +316,7 @@ def deliver (fold : Str → Str → Bool) (st : State) (m : Msg) : State × Bool
 inductive Op where
   | reg (addrOK : Bool) (r : Relayer)
   | regDry (addrOK : Bool) (r : Relayer)   -- the registration handler run on a context branch that is DISCARDED
+  | restart                                -- export genesis → JSON → validate → wipe → init genesis (module or whole app)
   | msg (m : Msg)
   deriving Repr, DecidableEq
 
@@ -331,6 +332,7 @@ def applyRegDry (st : State) (addrOK : Bool) (r : Relayer) : State × Bool :=
 def stepOp (fold : Str → Str → Bool) (st : State) : Op → State × Bool
   | .reg addrOK r => applyReg st addrOK r
   | .regDry addrOK r => applyRegDry st addrOK r
+  | .restart => (st, true)                 -- a restart from the exported state loses and invents nothing
   | .msg m => deliver fold st m
 
 /-- run a history, returning the final state and the list of (state before, op, accepted). -/
